@@ -74,6 +74,9 @@ def process_results(check, obs, known):
             counters["witness"] += 1
             if ob.status == "sat":
                 counters["witness_ok"] += 1
+            elif getattr(ob, "auto", False):
+                if ob.status == "unsat":
+                    check.extra_cov.setdefault("vacuous_obligations", []).append(ob.name[len("autowitness:"):])
             elif ob.kind == "claimed":
                 check.inconclusive.append("witness %s is %s (vacuous obligation or unreachable kernel)" % (ob.name, ob.status))
             continue
@@ -190,7 +193,21 @@ def run(check):
         for b in bad[:10]:
             check.inconclusive.append("translator validation: %s inputs=%s: %s" % b)
     obs = check.obligations(check.K)
-    # automatic vacuity witnesses for non-trivial preconditions: built by the check via Ob(expect='sat')
+    # automatic vacuity witnesses: the precondition of every claimed obligation must be satisfiable
+    if getattr(check, "auto_witness", True):
+        ws = []
+        for ob in obs:
+            if ob.expect != "unsat" or ob.fn is None or ob.status is not None or not ob.vars or ob.kind == "closed":
+                continue
+
+            def wfn(K, *vs, _f=ob.fn):
+                r = _f(K, *vs)
+                return r[0], T.TRUE
+            w = F.Ob("autowitness:" + ob.name, ob.vars, wfn, kind="stretch", expect="sat", routes=ob.routes, key=ob.key,
+                     kernels=ob.kernels, timeout=10, note="precondition is satisfiable (not vacuous)")
+            w.auto = True
+            ws.append(w)
+        obs = obs + ws
     check.obs = obs
     t3 = time.time()
     check.run_obligations(obs)
